@@ -27,6 +27,42 @@ Fixpoint rstate (rv : Z) (p : list rop) : Z :=
   match p with [] => rv | o :: r => rstate (rstep rv o) r end.
 
 (* ---------------------------------------------------------------------------------------------------------------
+   Both styles.  Law.cpp:20-24: Random_value, Random_Old_Style, std::mt19937 Random_gen.
+   Old style: Random_value IS the state.  New style: the state is the engine Random_gen; Random_value is only the last
+   seed given (law_uniform does not touch it: Law.cpp:143-148).  The engine is a black box: seeding it makes its state a
+   function of the seed, a draw advances the state and returns a function of it. *)
+Section TwoStyles.
+  Variable G : Type.
+  Variable gseed : Z -> G.         (* Random_gen.seed((unsigned) seed) *)
+  Variable gnext : G -> G.
+  Variable gout : G -> Z.          (* what a draw returns, as a function of the engine state *)
+
+  Record rst := { r_old : bool; r_val : Z; r_gen : G }.
+  Inductive rop2 := R2Seed (s : Z) | R2Draw | R2Style (old : bool).
+
+  (* law_set_random_seed: Law.cpp:106-115 *)
+  Definition set_seed2 (s : Z) (st : rst) : rst :=
+    if Z.ltb 0 s then {| r_old := r_old st; r_val := s; r_gen := if r_old st then r_gen st else gseed s |} else st.
+  (* the variant that returns at once when the seed is "already the current one" *)
+  Definition set_seed2_early (s : Z) (st : rst) : rst :=
+    if Z.leb s 0 || Z.eqb s (r_val st) then st else {| r_old := r_old st; r_val := s; r_gen := if r_old st then r_gen st else gseed s |}.
+  Definition draw2 (st : rst) : Z * rst :=
+    if r_old st then let v := draw (r_val st) in (v, {| r_old := true; r_val := v; r_gen := r_gen st |})
+    else (gout (r_gen st), {| r_old := false; r_val := r_val st; r_gen := gnext (r_gen st) |}).
+  Definition rstep2 (setseed : Z -> rst -> rst) (st : rst) (o : rop2) : list Z * rst :=
+    match o with
+    | R2Seed s => ([], setseed s st)
+    | R2Draw => let '(v, st') := draw2 st in ([v], st')
+    | R2Style b => ([], {| r_old := b; r_val := r_val st; r_gen := r_gen st |})      (* law_set_old_style: Law.cpp:66-69 *)
+    end.
+  (* the values drawn along a history *)
+  Fixpoint rrun2 (setseed : Z -> rst -> rst) (st : rst) (p : list rop2) : list Z :=
+    match p with [] => [] | o :: r => let '(vs, st') := rstep2 setseed st o in vs ++ rrun2 setseed st' r end.
+  Fixpoint rstate2 (setseed : Z -> rst -> rst) (st : rst) (p : list rop2) : rst :=
+    match p with [] => st | o :: r => rstate2 setseed (snd (rstep2 setseed st o)) r end.
+End TwoStyles.
+
+(* ---------------------------------------------------------------------------------------------------------------
    The quasi-random (Richtmeyer) sequence of mvndst: st_dkrcht, src/Basic/MathFunc.cpp:954-1010.  Its state lives in
    statics: DKRCHT_OLDS (dimension of the running sequence), hisum and the binary counter n[0..hisum]; the vector it
    returns is fmod(rn * sqrt(prime_i), 1) where rn is the value of the counter.  mvndst sets DKRCHT_OLDS = 0 on entry
